@@ -1550,3 +1550,27 @@ pub fn info_roundtrip(doc: &str) -> Outcome {
     let expected = if observed == "not accepted" { observed.clone() } else { "fixpoint".to_string() };
     Outcome { observed, expected, note: String::new() }
 }
+
+// ------------------------------------------------------------------------------------------------
+// C02: ill-formed input is never reported as a completely parsed document (error, or unconsumed input the caller can test)
+
+pub const ILL_FORMED: [&str; 42] = [
+    "<a></b>", "<a><b></a></b>", "<a>", "<a><b></b>", "</a>", "<a/><b/>", "<a/>x", "x<a/>", "", "   ",
+    "<a b='1' b='2'/>", "<a b=1/>", "<a b/>", "<a b='<'/>", "<a b='&'/>", "<a b='&#0;'/>", "<a b='&#xD800;'/>", "<a b='&#xFFFE;'/>", "<a b='1'c='2'/>",
+    "<a>&</a>", "<a>&#0;</a>", "<a>&#x110000;</a>", "<a>&nope;</a>", "<a>]]></a>", "<a><!-- -- --></a>", "<a><!--x---></a>", "<a><![CDATA[x]]</a>",
+    "<a><?xml version='1.0'?></a>", "<a><?XML x?></a>", " <?xml version='1.0'?><a/>", "<?xml version='1.0'?><?xml version='1.0'?><a/>", "<?xml?><a/>", "<?xml version='2'x?><a/>",
+    "<1a/>", "<a:b:c/>", "<-a/>", "<a\u{0}/>", "<a>\u{1}</a>", "<a>\u{ffff}</a>",
+    "<!DOCTYPE a><!DOCTYPE a><a/>", "<a/><!DOCTYPE a>", "<.a/>", "<!DOCTYPE a [<!ELEMENT a (b,,c)>]><a/>",
+];
+
+pub fn info_reject(doc: &str) -> Outcome {
+    let observed = guard(|| match xml_parser::document(doc) {
+        Err(_) => "rejected".to_string(),
+        Ok((rest, _)) if !rest.is_empty() => "rejected".to_string(),
+        Ok((_, tree)) => match xml_info::XmlDocument::new(&tree) {
+            Err(_) => "rejected".to_string(),
+            Ok(d) => format!("ACCEPTED as {}", d.borrow()),
+        },
+    });
+    Outcome { observed, expected: "rejected".to_string(), note: String::new() }
+}
